@@ -542,6 +542,67 @@ func c03Run(t *testing.T, c *evid.Collector) {
 		}
 	}
 
+	// ---- a bucket deleted and created again under its name lists what was stored in it since, after
+	// every upload (ignores the seed)
+	if evid.Shard() == 0 {
+		for _, k := range kinds {
+			if k.IsSingle() {
+				continue
+			}
+			st := backends.Must(k, backends.Options{})
+			if err := ensureBucket(st, "bk0"); err != nil {
+				panic(err)
+			}
+			live := map[string][]byte{}
+			step := 0
+			check := func(what string) {
+				step++
+				for _, pd := range [][2]string{{"", ""}, {"", "/"}, {"old/", "/"}, {"new/", ""}} {
+					for _, v2 := range []bool{false, true} {
+						ds, want := c03Check(st, "bk0", live, pd[0], pd[1], v2)
+						cs := c03Case{Backend: k, Keys: sortedKeys(live), Prefix: pd[0], Delim: pd[1], V2: v2}
+						for j := range ds {
+							ds[j].Detail = fmt.Sprintf("bucket re-created under its name, step %d (%s): ", step, what) + ds[j].Detail
+						}
+						record(cs, ds, want, len(live), true, "fixed-recreated-bucket")
+					}
+				}
+			}
+			must := func(r *s3x.Resp, status int) {
+				if r.Status != status {
+					panic("harness: " + r.String())
+				}
+			}
+			for round := 0; round < 2; round++ {
+				for _, key := range []string{"old/a", "old/b", "old/c/d"}[:3-round] {
+					live[key] = []byte(fmt.Sprintf("%s in incarnation %d", key, round))
+					must(put(st, "bk0", key, live[key]), 200)
+				}
+				check("first keys")
+				for key := range live {
+					must(del(st, "bk0", key), 204)
+					delete(live, key)
+				}
+				if round == 0 {
+					check("emptied")
+				}
+				must(s3x.Do(st.Handler, &s3x.Req{Method: "DELETE", Path: "/bk0"}), 204)
+				must(s3x.Do(st.Handler, &s3x.Req{Method: "PUT", Path: "/bk0"}), 200)
+				for i := 0; i < 7; i++ {
+					key := fmt.Sprintf("new/%c", 'r'+i)
+					live[key] = []byte(fmt.Sprintf("%s after re-creation %d", key, round))
+					must(put(st, "bk0", key, live[key]), 200)
+					check("put " + key)
+				}
+				for key := range live {
+					must(del(st, "bk0", key), 204)
+					delete(live, key)
+				}
+			}
+			st.Close()
+		}
+	}
+
 	// ---- random: richer keys, histories, delete markers
 	rapidRun(t, "random", evid.Scale(700, 8000), func(rt *rapid.T) {
 		k := rapid.SampledFrom(kinds).Draw(rt, "backend")
